@@ -32,6 +32,36 @@ def free_ports(n, kind=socket.SOCK_DGRAM):
     return ports
 
 
+def udp_sockets_of(pid):
+    """UDP sockets the process owns right now, from the kernel's tables: {local port: {"rxq": octets
+    queued and unread, "drops": datagrams the kernel discarded for this socket}}. A state barrier for
+    "the listener exists" (the stats API can answer before a protocol has bound its port) and the
+    witness for "the collector received it" (a datagram the kernel discarded never reached it)."""
+    inodes = set()
+    try:
+        for fd in os.listdir("/proc/%d/fd" % pid):
+            try:
+                l = os.readlink("/proc/%d/fd/%s" % (pid, fd))
+            except OSError:
+                continue
+            if l.startswith("socket:["):
+                inodes.add(l[8:-1])
+    except OSError:
+        return {}
+    out = {}
+    for f in ("/proc/net/udp", "/proc/net/udp6"):
+        try:
+            rows = open(f).read().splitlines()[1:]
+        except OSError:
+            continue
+        for row in rows:
+            c = row.split()
+            if len(c) < 13 or c[9] not in inodes:
+                continue
+            out[int(c[1].rsplit(":", 1)[1], 16)] = {"rxq": int(c[4].split(":")[1], 16), "drops": int(c[12])}
+    return out
+
+
 class Sink(threading.Thread):
     """TCP sink standing in for the message-queue consumer (rawSocket producer)."""
 
@@ -93,6 +123,7 @@ class Sink(threading.Thread):
 class Collector:
     def __init__(self, binary, workdir, extra_args=(), env=None, sink=None, config_text="", enable=("ipfix", "netflow9", "netflow5", "sflow"), minimal=False, config_as="-config FILE"):
         self.dir = workdir
+        self.enable = () if minimal else tuple(enable)
         os.makedirs(os.path.join(workdir, "etc"), exist_ok=True)
         self.ports = dict(zip(("ipfix", "netflow9", "netflow5", "sflow"), free_ports(4)))
         self.http = free_ports(1, socket.SOCK_STREAM)[0]
@@ -131,15 +162,40 @@ class Collector:
         self.p = subprocess.Popen(args, stdout=self.err, stderr=self.err, env=dict(os.environ, **(env or {})))
         self.udp = socket.socket(socket.AF_INET, socket.SOCK_DGRAM)
 
-    def wait_up(self, timeout=10):
+    def wait_up(self, timeout=120):
+        """Up = the stats API answers AND every enabled protocol has bound its UDP port (main() starts
+        the listeners and the stats server as independent goroutines: on a busy machine the API answers
+        first, and a datagram sent to a port nobody has bound yet is refused by the kernel, not lost by
+        the collector). Minimal-mode runs, whose ports are the thing under test, use wait_bound()."""
         t0 = time.time()
         while time.time() - t0 < timeout:
             if self.p.poll() is not None:
                 return False
-            if self.stats() is not None:
+            if self.stats() is not None and self.unbound() == []:
                 return True
             time.sleep(0.05)
         return False
+
+    def unbound(self):
+        have = udp_sockets_of(self.p.pid)
+        return [p for p in self.enable if self.ports[p] not in have]
+
+    def wait_bound(self, ports, all_listeners=4, timeout=120):
+        """True once the process owns UDP sockets on all of `ports`. False as soon as it owns
+        `all_listeners` UDP sockets without them (every listener is up and none is where it was
+        expected), when it has exited, or after the (generous) timeout."""
+        t0 = time.time()
+        while time.time() - t0 < timeout and self.p.poll() is None:
+            have = udp_sockets_of(self.p.pid)
+            if all(p in have for p in ports):
+                return True
+            if len(have) >= all_listeners:
+                return False
+            time.sleep(0.05)
+        return False
+
+    def kernel_drops(self, proto):
+        return udp_sockets_of(self.p.pid).get(self.ports[proto], {}).get("drops", 0)
 
     def stats(self):
         try:
@@ -151,13 +207,16 @@ class Collector:
     def send(self, proto, data):
         self.udp.sendto(data, ("127.0.0.1", self.ports[proto]))
 
-    def wait_count(self, proto_key, n, timeout=5):
-        """proto_key: IPFIX / SFlow / NetflowV5 / NetflowV9 in the /flow document."""
+    def wait_count(self, proto_key, n, timeout=60, field="UDPCount"):
+        """proto_key: IPFIX / SFlow / NetflowV5 / NetflowV9 in the /flow document. Returns as soon as
+        the counter is there; the timeout is only how long a missing datagram is waited for."""
         t0 = time.time()
         st = None
         while time.time() - t0 < timeout:
             st = self.stats()
-            if st and st.get(proto_key, {}).get("UDPCount", -1) >= n:
+            if st and st.get(proto_key, {}).get(field, -1) >= n:
+                return st
+            if self.p.poll() is not None:
                 return st
             time.sleep(0.02)
         return st
@@ -193,6 +252,27 @@ class Collector:
         if self.p.poll() is None:
             self.p.kill()
             self.p.wait()
+
+
+def start(binary, workdir, tries=4, **kw):
+    """Collector(...) + wait_up(), started again on fresh ports when the only thing wrong is that another
+    process took one of the ports between free_ports() and the collector's bind (checks may run side by
+    side). Returns (collector, up)."""
+    col = None
+    for _ in range(tries):
+        col = Collector(binary, workdir, **kw)
+        if col.wait_up():
+            return col, True
+        if col.alive() or "address already in use" not in col.output():
+            return col, False
+        col.kill()
+        col.err.close()
+        for f in ("stderr.txt", "vflow.log"):
+            try:
+                os.remove(os.path.join(workdir, f))
+            except OSError:
+                pass
+    return col, False
 
 
 # ---- tiny wire encoders (IPFIX / NetFlow v9 / v5) for the end-to-end runs -----------------
